@@ -128,7 +128,7 @@ MATH_FUNCS = {'cos': 'vcos', 'sin': 'vsin', 'exp': 'vexp', 'log': 'vlog', 'sqrt'
               'pow': 'vpow'}
 C_KEYWORDS = {'if', 'else', 'for', 'while', 'do', 'return', 'switch', 'case', 'default', 'break', 'continue', 'int', 'const',
               'Sc', 'void', 'long', 'unsigned'}
-PRELUDE_IDS = {'LIT', 'SCAST', 'GHOST_MSG', 'GHOST_EXIT', 'vpowi', 'vinv', 'pi', 'PI', 'ghost_nan', 'VF_EPS',
+PRELUDE_IDS = {'LIT', 'VF_IDX', 'VF_TOINT', 'SCAST', 'GHOST_MSG', 'GHOST_EXIT', 'vpowi', 'vinv', 'pi', 'PI', 'ghost_nan', 'VF_EPS',
                'VF_NAN'} | set(MATH_FUNCS.values())
 
 
@@ -565,8 +565,36 @@ def rewrite_body(body, cls, decl, fname, args, all_method_cnames, extra_ids=(), 
         out.append(toks[i])
         i += 1
     toks = out
+    # ---- vector element access: v[e] -> v[VF_IDX(e, v_size)]  (obligation: 0 <= e < v.size(), i.e. operator[] stays inside the container)
+    out = []
+    i = 0
+    while i < len(toks):
+        if toks[i][1] in decl.vectors and i + 1 < len(toks) and toks[i + 1][1] == '[':
+            j = match_close(toks, i + 1, '[', ']')
+            out += [toks[i], ('op', '['), ('id', 'VF_IDX'), ('op', '(')] + toks[i + 2:j] + [('op', ','), ('id', toks[i][1] + '_size'), ('op', ')'), ('op', ']')]
+            hit('Vidx')
+            i = j + 1
+            continue
+        out.append(toks[i])
+        i += 1
+    toks = out
     for vname in decl.vectors:
         int_ids.add(vname + '_size')
+    # ---- (int)(E) with a Scalar-typed E: truncation of a real to int is outside the arithmetic model -> VF_TOINT(E) (an unknown int in CBMC, a C cast natively)
+    sc_ids = set(decl.scalars) | {n for n, t in local_types.items() if t == 'Sc'} | {n for (t, n, kk) in args if kk == 'scalar'}
+    out = []
+    i = 0
+    while i < len(toks):
+        if [t_[1] for t_ in toks[i:i + 4]] == ['(', 'int', ')', '(']:
+            j = match_close(toks, i + 3)
+            if any(t_[0] == 'id' and t_[1] in sc_ids for t_ in toks[i + 4:j]):
+                out += [('id', 'VF_TOINT'), ('op', '(')] + toks[i + 4:j] + [('op', ')')]
+                hit('Vtoint')
+                i = j + 1
+                continue
+        out.append(toks[i])
+        i += 1
+    toks = out
 
     # ---- rule D: division
     def primary_end(i):
